@@ -831,7 +831,7 @@ def c14(r):
                 row["sal"][0] = row["sal"][0] % 3 + 1
                 return True
         return False
-    r.negctl("Trace_Holiday", ch_w[:4], {"C14Work": [(wk, "C14.workday."), (sal, "C14.salaryRate")]})
+    r.negctl("Trace_Holiday", ch_w[:4], {"C14Work": [(wk, "C14.workday."), (sal, "C14.salaryRate")]}, per_kind=1)
 
 
 # --------------------------------------------------------------------- C09
